@@ -296,6 +296,10 @@ def typestate(prog: Program, rep, x: ExcFlow, only_flow: bool = False):
             # run; the candidate of a trial step (`_compute_step(..).iterate`) is validated where the step was accepted
             from .solveloop import solve_loop
             carried = solve_loop(prog).names().get("iterate")
+            if carried and nm == carried:
+                # the carried variable itself: it is only ever replaced by an accepted (hence validated) candidate - rules
+                # validate-before-accept and only-accepted-carried - and starts as the checked initial iterate
+                return True
             val = ff.resolved(si.stmt, recv) if si is not None else recv
             accepted_here = any(f[0] == "truthy" and (f[1].endswith(".accepted") or ".accept" in f[1]) for f in si.facts) if si is not None else False
             oks = []
